@@ -111,6 +111,8 @@ var targets = []target{
 		Uses:     []string{"lower", "ext_didParse", "ext_optionalDID", "ext_newMeta", "ext_invValidate", "ext_argsValidate"}},
 	{Dir: "token/delegation", Recv: "Token", Name: "IsValidAt", Lean: "Dlg_IsValidAt", File: "ChainTime"},
 	{Dir: "token/invocation", Recv: "Token", Name: "IsValidAt", Lean: "Inv_IsValidAt", File: "ChainTime"},
+	{Dir: "token/delegation", Recv: "Token", Name: "IsValidNow", Lean: "Dlg_IsValidNow", File: "ChainTime", Uses: []string{"now"}},
+	{Dir: "token/invocation", Recv: "Token", Name: "IsValidNow", Lean: "Inv_IsValidNow", File: "ChainTime", Uses: []string{"now"}},
 	{Dir: "token/invocation", Recv: "Token", Name: "verifyProofs", Lean: "Inv_verifyProofs", File: "ChainProofs"},
 	{Dir: "token/invocation", Recv: "Token", Name: "verifyTimeBoundAt", Lean: "Inv_verifyTimeBoundAt", File: "ChainTime"},
 	{Dir: "token/invocation", Recv: "Token", Name: "loadProofs", Lean: "Inv_loadProofs", File: "ChainLoad", Uses: []string{"ext_GetDelegation"}},
